@@ -155,6 +155,29 @@ Theorem open_read_matrix : forall rest filename mode enc tex isfile kp, is_write
 Proof. exact Proofs.IO.open_read_matrix_all. Qed.
 Print Assumptions open_read_matrix.
 
+(* the named file exists: it is the one file opened -- kpsewhich is NOT consulted, whatever it
+   would find -- and failing to open it (EACCES, EISDIR ...) is a pybtex error naming it *)
+Theorem open_existing_file : forall rest filename mode enc tex kp,
+  is_write mode = false ->
+  (forall h, open_ (opener_st (OHandle h :: rest)) (TName filename) mode enc tex true kp
+     = (OpenOk h, {| script := rest; log := [((filename, mode), enc)] |})) /\
+  (forall e, open_ (opener_st (OEnvErr e :: rest)) (TName filename) mode enc tex true kp
+     = (OpenErr (open_error_message filename e), {| script := rest; log := [((filename, mode), enc)] |})).
+Proof. exact Proofs.IO.open_existing_file. Qed.
+Print Assumptions open_existing_file.
+
+(* the read side for EVERY outcome: whatever isfile says, whatever kpsewhich does (not startable,
+   any exit status, any output), whatever the open() attempt yields short of a foreign exception:
+   either exactly the handle that open() returned, or a pybtex error naming the file asked for;
+   at most one file is opened *)
+Theorem open_read_total : forall o rest filename mode enc tex isfile kp,
+  is_write mode = false -> o <> OOther ->
+  let '(r, st) := open_ (opener_st (o :: rest)) (TName filename) mode enc tex isfile kp in
+  ((exists h, r = OpenOk h /\ o = OHandle h) \/ (exists msg, r = OpenErr msg /\ infix filename msg = true))
+  /\ (length (log st) <= 1)%nat.
+Proof. exact Proofs.IO.open_read_total. Qed.
+Print Assumptions open_read_total.
+
 (* every pybtex error of _open names the file it was asked to open *)
 Theorem open_error_names_file : forall st filename mode enc tex isfile kp msg st',
   open_ st (TName filename) mode enc tex isfile kp = (OpenErr msg, st') ->
@@ -275,6 +298,21 @@ Theorem write_file_writes_to_bytes_partial : forall wd ws cd u d,
   write_file wd ws cd u d WOpened = (do b <- to_bytes wd ws cd u d; Ok (None, Some (SBytes b))).
 Proof. exact Proofs.EntryPoints.write_file_writes_to_bytes_partial. Qed.
 Print Assumptions write_file_writes_to_bytes_partial.
+
+(* ... and for an encoding without byte-order mark the FULL statement holds -- in particular
+   for the modelled utf-8, latin-1 and ascii: a named file receives exactly the to_bytes bytes,
+   for every plug-in and every data, also when the writer writes nothing *)
+Theorem write_file_writes_to_bytes_bomless : forall wd ws cd u d,
+  enc cd [] = Some [] ->
+  write_file wd ws cd u d WOpened = (do b <- to_bytes wd ws cd u d; Ok (None, Some (SBytes b))).
+Proof. exact Proofs.EntryPoints.write_file_writes_to_bytes_bomless. Qed.
+Print Assumptions write_file_writes_to_bytes_bomless.
+
+Theorem write_file_writes_to_bytes_modelled : forall wd ws n u d,
+  n <> 3%N ->
+  write_file wd ws (codec_of n) u d WOpened = (do b <- to_bytes wd ws (codec_of n) u d; Ok (None, Some (SBytes b))).
+Proof. exact Proofs.EntryPoints.write_file_writes_to_bytes_modelled. Qed.
+Print Assumptions write_file_writes_to_bytes_modelled.
 
 (* every installed suffix names a format: on a table accepted by installed_table_ok (evaluated
    on the regenerated table of the running environment on every check run), the class chosen
@@ -452,3 +490,14 @@ Example bibtexml_example :
   /\ xml_to_bytes str (fun d => Ok d) codec_ascii (s2l "ascii") [233]%N
      = Ok (s2l "<?xml version=""1.0"" encoding=""ascii""?>" ++ [10%N] ++ s2l "&#233;").
 Proof. vm_compute. repeat split; eexists; reflexivity. Qed.
+
+(* the wave-7 class: an existing file that cannot be opened while kpsewhich would find another --
+   a pybtex error naming the file, the other file is not touched *)
+Example open_existing_unreadable_example :
+  open_ (opener_st [OEnvErr (Some (s2l "Permission denied")); OHandle 2%N]) (TName (s2l "x.bib")) (s2l "r") None None
+        true (PExit 0 (s2l "found/located.bib"))
+  = (OpenErr (s2l "unable to open x.bib. Permission denied"),
+     {| script := [OHandle 2%N]; log := [((s2l "x.bib", s2l "r"), None)] |})
+  /\ is_write (s2l "r") = false /\ OEnvErr (Some (s2l "Permission denied")) <> OOther
+  /\ enc (codec_of 0) [] = Some [] /\ enc (codec_of 1) [] = Some [] /\ enc (codec_of 2) [] = Some [].
+Proof. vm_compute. repeat split; discriminate. Qed.
